@@ -1062,6 +1062,18 @@ GEN_NAME = re.compile(r"^sys\[(\d+)\]$")
 
 class C19(Family):
     prop = "C19"
+    # source-text tie (DESIGN 2.5): Generated/ConfigDict.lean is rewritten from /repo's control/config.py
+    # (DefaultDict._check_deprecation/__missing__/__setitem__, set_defaults, reset_defaults) on every run
+    # and proved equal to the step functions of the model (Props/C19Gen.lean)
+    extra_modules = ["CtrlVerif.Props.C19Gen"]
+
+    def pre_build(self):
+        import os
+        from core import py2lean_select, leanproj
+        problems, self.gen_info = py2lean_select.regenerate(
+            os.environ.get("VERIF_REPO") or "/repo", leanproj.LEAN, "C19")
+        return problems
+
     externals = []
     assumptions = [
         "that the real operations do not mutate their operands is established by the correspondence "
